@@ -147,7 +147,7 @@ CHECKS = {
          "commitment of redeem/witness script and key to the previous output). For API-built transactions over 8 spend kinds, random signer subsets "
          "and orders, signing spread over per-input and whole-transaction calls with repeats, then 11 kinds of single-field tampering of the object "
          "and of the parsed serialisation (incl. corrupted / foreign / duplicated signatures at byte level): library verdict must match the "
-         "expectation, and library-accepts implies the independent verifier accepts. Keys attached to the inputs, a change after signing and sign_and_update() are part of every run. Found and fixed: F35 (sign() early exits), F33, F53 (re-signed pay-to-public-key input kept the old signature in its script)."),
+         "expectation, and library-accepts implies the independent verifier accepts. Keys attached to the inputs, a change after signing and sign_and_update() are part of every run. Found and fixed: F35 (sign() early exits), F33, F53 (re-signed pay-to-public-key input kept the old signature in its script), F73 (hash type byte of witness signatures ignored), F74 / F76 (signing a multisig input again), F75 (Input.valid stale). The hash type byte of a signature is one of the tamperings; a multisig input is signed by exactly m cosigners, changed and signed again."),
    design_ref='DESIGN.md §5 C02',
    note=COMMON_NOTE + "Cryptographic residue: that a changed digest is not matched by the old signature rests on ECDSA/SHA-256. verify() trusts the input's own redeem script "
         "(the previous output is not part of a transaction); the independent verifier is given the previous output script and amount, as a node would have them (see F25 under C10)."),
